@@ -731,15 +731,15 @@ ERR = {'NotFittedError': 'NotFitted', 'ValueError': 'ValueErr', 'TypeError': 'Ty
        'ModuleNotFoundError': 'ImportErr', 'LinAlgError': 'LinAlgErr'}
 
 
-def result_term(fn, show):
-    """run fn(); Coq `result` literal: Ok (show value) | Err <class>"""
+def result_term(fn, show, ty):
+    """run fn(); Coq `result ty` literal: Ok (show value) | Err <class>"""
     try:
         v = fn()
     except Exception as ex:       # noqa: BLE001 - the exception class IS the observation
         name = type(ex).__name__
         if name not in ERR:
             raise Unmodelled(f'exception {name}: {ex}')
-        return f'(Err {ERR[name]})', ex
+        return f'(@Err {ty} {ERR[name]})', ex
     return f'(Ok {show(v)})', v
 
 
